@@ -25,6 +25,7 @@ import (
 	"github.com/pion/interceptor/pkg/flexfec"
 	"github.com/pion/interceptor/pkg/intervalpli"
 	"github.com/pion/interceptor/pkg/jitterbuffer"
+	"github.com/pion/interceptor/pkg/mock"
 	"github.com/pion/interceptor/pkg/nack"
 	"github.com/pion/interceptor/pkg/pacing"
 	"github.com/pion/interceptor/pkg/packetdump"
@@ -84,8 +85,10 @@ type script struct {
 	Obs   [][2]int `json:"obs,omitempty"`
 	Leak  int      `json:"leak"`
 	Notes []string `json:"notes,omitempty"`
-	// a chain built for this run (iid >= 14): ids of its members, in order
+	// a chain built for this run (iid >= 14): ids of its members, in order (100 = mock member whose Close fails)
 	Members []int `json:"members,omitempty"`
+	// chains: [Chain.Close calls that returned; fewest / most Close calls a member received; 1 iff the errors are right]
+	ChainObs []int `json:"chain_obs,omitempty"`
 
 	nSync, nAsync int
 }
@@ -225,37 +228,120 @@ var kinds = []*kind{
 	}},
 }
 
-// chainIC is a Chain that remembers its members, so that the per-stream state of every member can be probed.
+// mockCloseFails is the member id of an instrumented member (pkg/mock Interceptor) whose Close returns
+// errMockClose and that does nothing else: no built-in interceptor's Close ever fails, so only such a member
+// shows whether Chain.Close goes on after an error.
+const mockCloseFails = 100
+
+var errMockClose = errors.New("mock member: Close failed")
+
+// countIC counts the Close calls a chain member receives.
+type countIC struct {
+	interceptor.Interceptor
+	closes atomic.Int32
+}
+
+func (c *countIC) Close() error {
+	c.closes.Add(1)
+
+	return c.Interceptor.Close()
+}
+
+// chainIC is a Chain that remembers its members, so that the per-stream state of every member can be probed
+// and the Close calls every member receives can be counted.
 type chainIC struct {
 	interceptor.Interceptor
-	members []interceptor.Interceptor
-	kinds   []*kind
+	members  []interceptor.Interceptor // the members themselves (for the probes)
+	counters []*countIC                // what the Chain was built from
+	kinds    []*kind                   // nil for the mock member
+	failing  bool                      // a member's Close fails
+
+	mu         sync.Mutex
+	closeCalls int  // Chain.Close calls that returned
+	errLost    bool // a Chain.Close did not return the failing member's error (or returned one although nobody failed)
+}
+
+func (c *chainIC) Close() error {
+	err := c.Interceptor.Close()
+	c.mu.Lock()
+	c.closeCalls++
+	if c.failing != errors.Is(err, errMockClose) || (!c.failing && err != nil) {
+		c.errLost = true
+	}
+	c.mu.Unlock()
+
+	return err
+}
+
+// summary: [Chain.Close calls that returned; fewest / most Close calls a member received; 1 iff every
+// Chain.Close returned exactly the members' errors]
+func (c *chainIC) summary() []int {
+	c.mu.Lock()
+	defer c.mu.Unlock()
+	lo, hi := -1, 0
+	for _, m := range c.counters {
+		n := int(m.closes.Load())
+		if lo < 0 || n < lo {
+			lo = n
+		}
+		if n > hi {
+			hi = n
+		}
+	}
+	ok := 1
+	if c.errLost {
+		ok = 0
+	}
+
+	return []int{c.closeCalls, lo, hi, ok}
 }
 
 // chainKind builds the kind of Chain[members...]; all members act on the same direction (remote / local).
 func chainKind(id int, members []int) *kind {
 	name := "chain"
-	if id != 13 {
-		name = "chain"
-		for _, m := range members {
+	first := -1
+	for _, m := range members {
+		if m == mockCloseFails {
+			if id != 13 {
+				name += "+closefails"
+			}
+
+			continue
+		}
+		if first < 0 {
+			first = m
+		}
+		if id != 13 {
 			name += "+" + kinds[m].name
 		}
 	}
 	ms := append([]int{}, members...)
 
 	return &kind{
-		id: id, name: name, remote: kinds[ms[0]].remote, perSSRC: true, members: ms,
+		id: id, name: name, remote: kinds[first].remote, perSSRC: true, members: ms,
 		mk: func() (interceptor.Interceptor, error) {
 			c := &chainIC{}
+			var wrapped []interceptor.Interceptor
 			for _, m := range ms {
-				ic, err := kinds[m].mk()
-				if err != nil {
-					return nil, err
+				var ic interceptor.Interceptor
+				var k *kind
+				if m == mockCloseFails {
+					ic = &mock.Interceptor{CloseFn: func() error { return errMockClose }}
+					c.failing = true
+				} else {
+					var err error
+					if ic, err = kinds[m].mk(); err != nil {
+						return nil, err
+					}
+					k = kinds[m]
 				}
+				cnt := &countIC{Interceptor: ic}
 				c.members = append(c.members, ic)
-				c.kinds = append(c.kinds, kinds[m])
+				c.counters = append(c.counters, cnt)
+				c.kinds = append(c.kinds, k)
+				wrapped = append(wrapped, cnt)
 			}
-			c.Interceptor = interceptor.NewChain(c.members)
+			c.Interceptor = interceptor.NewChain(wrapped)
 
 			return c, nil
 		},
@@ -267,7 +353,7 @@ func chainKind(id int, members []int) *kind {
 			}
 			exists, fresh := false, true
 			for i, m := range c.members {
-				if c.kinds[i].probe == nil {
+				if c.kinds[i] == nil || c.kinds[i].probe == nil {
 					continue
 				}
 				e, f := c.kinds[i].probe(m, ssrc, seq)
@@ -281,6 +367,9 @@ func chainKind(id int, members []int) *kind {
 		},
 	}
 }
+
+// chains with the failing mock member placed before (or between) lifecycle-bearing members, ids 17..19
+var mockChains = [][]int{{mockCloseFails, 0, 2}, {mockCloseFails, 3, 1}, {2, mockCloseFails, 6}}
 
 func init() {
 	// the chain instance of the feature record chain_cfg: Chain[nack generator; report receiver]
@@ -689,6 +778,9 @@ func runScript(sc *script) {
 		}
 	}
 	sc.Obs = obs
+	if c, ok := ic.(*chainIC); ok {
+		sc.ChainObs = c.summary()
+	}
 	r.mu.Lock()
 	for _, w := range r.writes {
 		if w.sync {
@@ -725,6 +817,7 @@ type gateResult struct {
 	Iid           int    `json:"iid"`
 	Name          string `json:"name"`
 	Mode          int    `json:"mode"`
+	Members       []int  `json:"members,omitempty"` // chain kinds built for the run (iid >= 14)
 	Entered       bool   `json:"entered"`         // a goroutine of the interceptor was caught inside a write
 	ClosedEarly   bool   `json:"closed_early"`    // Close returned while that write was still in progress
 	Close2Early   bool   `json:"close2_early"`    // the second Close returned while that write was still in progress
@@ -733,6 +826,8 @@ type gateResult struct {
 	CloseHang     bool   `json:"close_hang"`      // a Close did not return after the write completed
 	UnbindSlow    bool   `json:"unbind_slow"`     // an Unbind returned only after the writer let the held write go
 	UnbindHang    bool   `json:"unbind_hang"`     // an Unbind never returned
+	NotClosed     bool   `json:"member_not_closed"` // chains: a member received fewer (or more) Close calls than Chain.Close was called
+	ErrLost       bool   `json:"close_error_lost"`  // chains: Chain.Close did not return the failing member's error
 	Panic         string `json:"panic,omitempty"`
 }
 
@@ -750,7 +845,7 @@ func (g *gateResult) obs() []int64 {
 	}
 
 	return []int64{b(g.Entered), b(g.ClosedEarly), b(g.Close2Early), late, b(g.CloseHang), b(g.UnbindHang), b(g.Panic != ""),
-		b(g.AliveAtReturn > 0)}
+		b(g.AliveAtReturn > 0), b(g.NotClosed), b(g.ErrLost)}
 }
 
 var gateLabelRe = regexp.MustCompile(`"c11g":"([0-9-]+)"`)
@@ -809,7 +904,7 @@ func within(d time.Duration, f func()) (bool, chan struct{}) {
 // unbind every stream / Close / Close twice, and see whether every Close waits for the goroutine that
 // is writing.
 func runGate(k *kind, mode int) *gateResult {
-	res := &gateResult{Special: "gate", Iid: k.id, Name: k.name, Mode: mode}
+	res := &gateResult{Special: "gate", Iid: k.id, Name: k.name, Mode: mode, Members: k.members14()}
 	label := fmt.Sprintf("%d-%d", k.id, mode)
 	pprof.Do(context.Background(), pprof.Labels("c11g", label), func(context.Context) { runGateLabelled(k, mode, label, res) })
 
@@ -952,6 +1047,12 @@ func runGateLabelled(k *kind, mode int, label string, res *gateResult) {
 		}
 	}
 	time.Sleep(closeWin)
+	if c, ok := ic.(*chainIC); ok && !res.CloseHang {
+		// every member was closed once per Chain.Close call, and the failing member's error came back
+		sum := c.summary()
+		res.NotClosed = sum[1] != sum[0] || sum[2] != sum[0] || sum[0] != nClose
+		res.ErrLost = sum[3] != 1
+	}
 	retMu.Lock()
 	fr := firstRet
 	if alive > 0 {
@@ -1252,13 +1353,21 @@ func (sc *script) toCase(buckets ...string) cq.Case {
 
 	if len(sc.Members) > 0 {
 		ms := make([]int64, len(sc.Members))
+		tagChain := "random-chain"
 		for i, m := range sc.Members {
 			ms[i] = int64(m)
+			if m == mockCloseFails {
+				tagChain = "chain-with-failing-close"
+			}
+		}
+		co := make([]int64, len(sc.ChainObs))
+		for i, v := range sc.ChainObs {
+			co[i] = int64(v)
 		}
 
 		return cq.Case{
-			Coq: cq.T(cq.Z(int64(sc.Iid)), cq.LZ(ms), cq.Z(int64(sc.Mask)), cq.L(ops), cq.L(obs), cq.Z(int64(sc.Leak))),
-			JSON: sc, Buckets: append(b, "random-chain"), Trivial: len(sc.Ops) < 2,
+			Coq: cq.T(cq.Z(int64(sc.Iid)), cq.LZ(ms), cq.Z(int64(sc.Mask)), cq.L(ops), cq.L(obs), cq.Z(int64(sc.Leak)), cq.LZ(co)),
+			JSON: sc, Buckets: append(b, tagChain), Trivial: len(sc.Ops) < 2,
 		}
 	}
 
@@ -1325,6 +1434,9 @@ func main() {
 		cq.LoadReplay(o.Replay, &g)
 		switch g.Special {
 		case "gate":
+			if len(g.Members) > 0 {
+				ensureChain(g.Iid, g.Members)
+			}
 			replayGate, replayGateMode = g.Iid, g.Mode
 			add(g.Iid, []op{{K: "bindw"}}, 0, "replay") // keeps the case set non-empty
 		case "concurrent-close":
@@ -1368,6 +1480,9 @@ func main() {
 				ms[i] = pool[perm[i]]
 			}
 			kinds = append(kinds, chainKind(14+c, ms))
+		}
+		for c, ms := range mockChains {
+			kinds = append(kinds, chainKind(17+c, ms))
 		}
 		depth := 2
 		if o.Tier == "thorough" {
@@ -1524,6 +1639,12 @@ func main() {
 			fails = append(fails, cq.ImplFailure{Kind: g.Name + "-gated" + what + "-hang", Detail: "Close (or a call parked behind the held write) did not return after the held write completed", Case: g})
 		case g.UnbindHang:
 			fails = append(fails, cq.ImplFailure{Kind: g.Name + "-gated-unbind-hang", Detail: "Unbind did not return after the held write completed", Case: g})
+		case g.NotClosed:
+			fails = append(fails, cq.ImplFailure{Kind: g.Name + "-gated" + what + "-member-not-closed",
+				Detail: "a member of the chain did not receive exactly one Close per Chain.Close call", Case: g})
+		case g.ErrLost:
+			fails = append(fails, cq.ImplFailure{Kind: g.Name + "-gated" + what + "-close-error-lost",
+				Detail: "Chain.Close did not return the error of the member whose Close failed", Case: g})
 		case g.LateWrites > 0:
 			fails = append(fails, cq.ImplFailure{Kind: g.Name + "-gated" + what + "-write-after-close",
 				Detail: fmt.Sprintf("%d write(s) of goroutines of the interceptor completed after a Close had returned", g.LateWrites), Case: g})
